@@ -27,7 +27,7 @@ ConstructFrom(L, keep, batch, weighted, container, chunks) ==
     /\ weighted \/ AllOnes(batch)
     /\ IsDask(container) => (chunks \in Compositions(Len(batch)) /\ Len(batch) > 0)
     /\ ~IsDask(container) => chunks = <<>>
-    /\ container \in {"ndarray2d.F", "ndarray2d.T"} => (Len(batch) >= 4 /\ Len(batch) % 2 = 0)   \* a (2, n/2) array that is not C-contiguous
+    /\ container \in {"ndarray2d.F", "ndarray2d.T", "tuple2rows", "list2rows"} => (Len(batch) >= 4 /\ Len(batch) % 2 = 0)   \* a (2, n/2) array that is not C-contiguous
     /\ h' = [DepositAll(Empty(L, keep), batch) EXCEPT !.med = FALSE, !.weighted = weighted]
     /\ ghost' = GOfSeq(batch)
 
